@@ -493,15 +493,15 @@ class EIG(BaseRoutine):
             system.TDS.init()
             system.TDS.itm_step()
 
-        elif system.dae.n == 0:
-            logger.error('No dynamic model. Eig analysis will not continue.')
-            status = False
-
         else:
             # re-evaluate the equations and Jacobians at the current point;
             # parameters may have been altered since they were last computed
             system.TDS.fg_update(system.exist.pflow_tds)
             system.j_update(system.exist.pflow_tds)
+
+        if system.dae.n == 0:
+            logger.error('No dynamic model. Eig analysis will not continue.')
+            status = False
 
         return status
 
